@@ -471,9 +471,14 @@ func ruleTagNameSet(c *Ctx) {
 func ruleLowerTransient(c *Ctx) {
 	c.Rule("LOWER-TRANSIENT", "maybeLower returns either its argument or the reusable scratch buffer, which the next call overwrites. Its result (followed through the parameters of module helpers it is passed to) is therefore only read — passed to FilterTag, compared, measured — and never stored into a field, a variable that outlives the statement, a slice element or a map: a remembered name would silently change when the next tag is lower-cased (a memoised verdict then answers for the wrong tag).")
 	p := c.P
-	ml := p.Func("maybeLower")
-	if !c.NeedFunc("LOWER-TRANSIENT", ml, "maybeLower") {
+	if len(theLowerFns) == 0 {
+		c.Undecided("LOWER-TRANSIENT", "lowering-function", token.NoPos, "no lowering function identified by LOWER")
 		return
+	}
+	isLower := func(f *ssa.Function) bool { return f != nil && theLowerFns[f] }
+	var ml *ssa.Function
+	for f := range theLowerFns {
+		ml = f
 	}
 	n := 0
 	var follow func(v ssa.Value, fn *ssa.Function, depth int, seen map[ssa.Value]bool) (bool, string, ssa.Instruction)
@@ -517,7 +522,7 @@ func ruleLowerTransient(c *Ctx) {
 					var bad ssa.Instruction
 					var badWhy string
 					eachInstr(caller, func(y ssa.Instruction) {
-						if cl, ok := y.(*ssa.Call); ok && cl.Call.StaticCallee() == fn && fn != ml {
+						if cl, ok := y.(*ssa.Call); ok && cl.Call.StaticCallee() == fn && !isLower(fn) {
 							if ok2, why, at := follow(cl, caller, depth+1, seen); !ok2 {
 								bad, badWhy = at, why
 							}
@@ -534,7 +539,7 @@ func ruleLowerTransient(c *Ctx) {
 	for _, fn := range p.Funcs {
 		eachInstr(fn, func(in ssa.Instruction) {
 			call, ok := in.(*ssa.Call)
-			if !ok || call.Call.StaticCallee() != ml {
+			if !ok || !isLower(call.Call.StaticCallee()) {
 				return
 			}
 			n++
@@ -548,6 +553,6 @@ func ruleLowerTransient(c *Ctx) {
 		})
 	}
 	if n < 1 {
-		c.Undecided("LOWER-TRANSIENT", "instance-count", ml.Pos(), "maybeLower is never called")
+		c.Undecided("LOWER-TRANSIENT", "instance-count", ml.Pos(), "the lowering function is never called")
 	}
 }
